@@ -236,3 +236,91 @@ def normalise(relpath: str, tree: ast.AST) -> List[Tuple[str, str, str]]:
             rename_local(fn, n, want)
             done.append((q, n, want))
     return done
+
+
+# ------------------------------------------------------------------------
+# orientation of comparisons
+#
+# `a < b` and `b > a` are the same test.  Rules written against `n > LIMIT`
+# must not report when somebody writes `LIMIT < n`.  Same idea as above: a
+# single-operator comparison of the current tree that is not in the
+# reference list of its function (sa/compares.json) while its mirror image
+# is, is mirrored before analysis.  Only done when one operand is a plain
+# name / attribute chain / constant, so no two calls change their order of
+# evaluation.
+
+COMPARES = os.path.join(os.path.dirname(os.path.abspath(__file__)),
+                        'compares.json')
+_MIRROR = {ast.Eq: ast.Eq, ast.NotEq: ast.NotEq, ast.Lt: ast.Gt,
+           ast.Gt: ast.Lt, ast.LtE: ast.GtE, ast.GtE: ast.LtE}
+
+
+def _simple(e) -> bool:
+    while isinstance(e, ast.Attribute):
+        e = e.value
+    if isinstance(e, ast.UnaryOp) and isinstance(e.operand, ast.Constant):
+        return True
+    return isinstance(e, (ast.Name, ast.Constant))
+
+
+def _mirrorable(c) -> bool:
+    return isinstance(c, ast.Compare) and len(c.ops) == 1 and \
+        type(c.ops[0]) in _MIRROR and \
+        (_simple(c.left) or _simple(c.comparators[0]))
+
+
+def _mirror_text(c) -> str:
+    m = ast.Compare(left=c.comparators[0],
+                    ops=[_MIRROR[type(c.ops[0])]()],
+                    comparators=[c.left])
+    return ast.unparse(m)
+
+
+def compares_of(tree: ast.AST) -> Dict[str, List[str]]:
+    out = {}
+    for q, fn in units(tree):
+        texts = sorted({ast.unparse(c) for c in ast.walk(fn)
+                        if _mirrorable(c)})
+        if texts:
+            out[q] = texts
+    return out
+
+
+_cmp_cache: Optional[Dict[str, Dict[str, List[str]]]] = None
+
+
+def reference_compares() -> Dict[str, Dict[str, List[str]]]:
+    global _cmp_cache
+    if _cmp_cache is None:
+        try:
+            with open(COMPARES, encoding='utf-8') as f:
+                _cmp_cache = json.load(f)
+        except FileNotFoundError:
+            _cmp_cache = {}
+    return _cmp_cache
+
+
+def orient(relpath: str, tree: ast.AST) -> List[Tuple[str, str, str]]:
+    """mirror comparisons written the other way round than in the reference
+    tree; returns [(function, text in the tree, text analysed)]"""
+    ref_mod = reference_compares().get(relpath)
+    done: List[Tuple[str, str, str]] = []
+    if not ref_mod:
+        return done
+    for q, fn in units(tree):
+        ref = ref_mod.get(q)
+        if not ref:
+            continue
+        refset = set(ref)
+        for c in ast.walk(fn):
+            if not _mirrorable(c):
+                continue
+            t = ast.unparse(c)
+            if t in refset:
+                continue
+            m = _mirror_text(c)
+            if m in refset:
+                c.left, c.comparators[0] = c.comparators[0], c.left
+                c.ops = [_MIRROR[type(c.ops[0])]()]
+                done.append((q, t, m))
+    return done
